@@ -175,6 +175,8 @@ def check_compile(ctx, ci, comp):
         if not isinstance(f, str) or len(f) != 2:
             return 'format %r' % (f,)
         prefix, code = f[0], f[1]
+        if prefix == '=':           # standard sizes, the byte order of the host
+            prefix = '>' if env.get('sys.byteorder') == 'big' else '<'
         return ('standard size, %s' % ('big endian' if prefix in '>!' else 'little endian' if prefix == '<' else 'NATIVE alignment/size (%r)' % prefix),
                 '%d bytes' % STD.get(code, -1), 'signed' if code.islower() else 'unsigned')
 
@@ -188,6 +190,14 @@ def check_compile(ctx, ci, comp):
                 env = dict(base, **{'self.endianness': spelling, 'sys.byteorder': 'little' if spelling == 'big' else 'big', 'self.byte_count': n, 'self.is_signed': signed})
                 decide(rule, 'struct format of Int(%d, signed=%s, %s endian)' % (n, signed, spelling), env,
                        ('standard size, %s endian' % spelling, '%d bytes' % n, 'signed' if signed else 'unsigned'), fmt, 'a')
+    # every spelling of the byte order, on both kinds of host: the struct object has the byte order
+    # is_bigendian says and standard (packed) sizes -- '@' would bring native alignment and sizes
+    for spelling, (w_big, w_little) in sorted(want.items()):
+        for order, wanted in (('big', w_big), ('little', w_little)):
+            for n in (2, 8):
+                env = dict(base, **{'self.endianness': spelling, 'sys.byteorder': order, 'self.byte_count': n, 'self.is_signed': False})
+                decide(rule, 'struct format of Int(%d, endianness=%r) on a %s-endian host' % (n, spelling, order), env,
+                       ('standard size, %s endian' % ('big' if wanted else 'little'), '%d bytes' % n, 'unsigned'), fmt, 'a')
 
 
 def _replace_conf_get(e, value):
@@ -415,7 +425,11 @@ def check(ctx):
     check_codecs(ctx, ci)
     check_ctor(ctx, ci)
     from .c03 import check_struct_block
-    check_struct_block(ctx)
+    try:
+        check_struct_block(ctx)
+    except Undecided as e:
+        # the other clauses are still decided; this one has no verdict
+        ctx.undecided('R2-struct-block', (ci.file, 'CodeGenerator'), 'struct block generator', str(e), 0, clause='d')
     check_single_source(ctx)
     check_generated_codecs(ctx)
     check_surroundings(ctx)
